@@ -36,7 +36,9 @@ checks = {
         rp = [dict(name='C02_env', progs=C.fam(C.ALL), plans=[[]], alphabet=alpha, k=2),
               dict(name='C02_reentrant', progs=C.fam(['P03', 'P05']), plans=kill_plans, alphabet=alpha, k=1),
               dict(name='C02_downgrade', progs=down, plans=[[]], alphabet=alpha, k=2),
-              dict(name='C02_listener_raises', progs=C.fam(['P02', 'P03', 'P08']), plans=lfaults, alphabet=['kill', 'pause', 'play'], k=1)]
+              dict(name='C02_listener_raises', progs=C.fam(['P02', 'P03', 'P08']), plans=lfaults, alphabet=['kill', 'pause', 'play'], k=1),
+              # conformance only: close() by the user is outside the property's quantifier, but it is modelled
+              dict(name='C02_user_close', progs=C.fam(['P01', 'P03', 'P04']), plans=[[]], alphabet=['close', 'kill', 'pause', 'play'], k=2)]
     else:
         mc = [dict(name='C02_env', progs=C.fam(C.ALL), plans=[[]], alphabet=alpha, k=4, invariants=INV),
               dict(name='C02_reentrant', progs=C.fam(C.ALL), plans=kill_plans, alphabet=alpha, k=2, invariants=INV),
@@ -44,7 +46,8 @@ checks = {
         rp = [dict(name='C02_env', progs=C.fam(C.ALL), plans=[[]], alphabet=alpha, k=3),
               dict(name='C02_reentrant', progs=C.fam(C.SMALL), plans=kill_plans, alphabet=alpha, k=1),
               dict(name='C02_downgrade', progs=down, plans=[[]], alphabet=alpha, k=3),
-              dict(name='C02_listener_raises', progs=C.fam(C.ALL), plans=lfaults, alphabet=['kill', 'pause', 'play', 'resume'], k=2)]''',
+              dict(name='C02_listener_raises', progs=C.fam(C.ALL), plans=lfaults, alphabet=['kill', 'pause', 'play', 'resume'], k=2),
+              dict(name='C02_user_close', progs=C.fam(C.ALL), plans=[[]], alphabet=['close', 'kill', 'pause', 'play', 'resume', 'fail'], k=3)]''',
         extra_assume=['three listeners are attached (one recording, two counting): every listener must be told each event exactly once even when another listener raises', 'the five accessor families (future, result, successful/is_successful, killed/killed_msg, exception) are read from the real process after every action and must agree with each other and with the specification state'],
         rule='every interleaving of <=K control requests (incl. kill while paused, during a step, from a listener) with every program; accessor agreement, notification/cleanup counts and stepping-task completion compared after every action'),
     'c04': dict(
